@@ -22,6 +22,7 @@ EXPLANATION = (
     "suffix after using them; (g) LaTeXToPDF, which follows Write, does not default a missing output.changed to a falsy value: the "
     "missing-flag handler sets the flag to True or to a comparison of the modification times of the .tex and the .pdf.  Does not decide file contents or mtimes over histories.")
 RULES = {
+    "C19-h": "GUARD: LaTeXToPDF yields a pdf only for a process seen to have terminated with return code 0",
     "C19-a": "PAIR: a write in Write.run is followed by output.changed = True before the yield",
     "C19-b": "sticky flag: Write stores True or the incoming value; converters store False only when the incoming flag is falsy; groups use any()",
     "C19-c": "GUARD: a converter is skipped only if the artefact exists, overwrite is off and changed is falsy; an unchanged comparison reaches no write",
@@ -632,7 +633,55 @@ def check_absent_flag(ctx):
         ctx.instances_floor("C19-g", n_h, 2, "paths through the missing-flag handler of LaTeXToPDF.run")
 
 
+def check_only_successful_yield(ctx):
+    """LaTeXToPDF hands a (pdf, context) on only for a converter process that has terminated with return code 0: in
+    pop_returned_processes every path that yields has established `returncode is not None` and refuted `returncode`
+    (whatever the verbosity).  A failed conversion yielded downstream names a file that was not (re)made."""
+    fn = ctx.tree.maybe("lena.output.latex_to_pdf", "LaTeXToPDF.run.pop_returned_processes")
+    if not ctx.require(fn is not None, "C19-h", ctx.tree.func("lena.output.latex_to_pdf", "LaTeXToPDF.run"),
+                       "LaTeXToPDF.run: the helper that collects terminated processes (pop_returned_processes) not found"):
+        return
+    rcs = {a.targets[0].id for a in A.walk_local(fn) if isinstance(a, ast.Assign) and len(a.targets) == 1 and isinstance(a.targets[0], ast.Name)
+           and isinstance(a.value, ast.Call) and isinstance(a.value.func, ast.Attribute) and a.value.func.attr in ("poll", "wait")}
+    if not ctx.require(len(rcs) == 1, "C19-h", fn, "pop_returned_processes: the local holding proc.poll() not found"):
+        return
+    rc = rcs.pop()
+    n = 0
+    seen = set()
+    for p in P.paths_of(fn):
+        ys = p.yields()
+        if not ys:
+            continue
+        upto = ys[0][0]
+        terminated = zero = False
+        for e in p.ev[:upto]:
+            if e[0] != "cond":
+                continue
+            for t, pol in A.literals(e[1], e[2]):
+                if isinstance(t, ast.Name) and t.id == rc and pol is False:
+                    zero = True
+                if isinstance(t, ast.Compare) and len(t.ops) == 1 and isinstance(t.left, ast.Name) and t.left.id == rc \
+                        and isinstance(t.comparators[0], ast.Constant):
+                    cv, op = t.comparators[0].value, t.ops[0]
+                    if cv is None and isinstance(op, (ast.IsNot, ast.NotEq)) and pol or cv is None and isinstance(op, (ast.Is, ast.Eq)) and not pol:
+                        terminated = True
+                    if cv == 0 and cv is not False and (isinstance(op, ast.Eq) and pol or isinstance(op, ast.NotEq) and not pol):
+                        zero = True
+        key = (terminated, zero, p.describe(3))
+        if key in seen:
+            continue
+        seen.add(key)
+        n += 1
+        ctx.check("C19-h", terminated and zero, ys[0][1], "LaTeXToPDF yields the pdf of a process on path [%s] without having seen that it "
+                  "%s: the pdf of a failed (or still running) conversion is passed on as if it had been made"
+                  % (p.describe(), "terminated" if not terminated else "returned 0"),
+                  detail="yield only after returncode is not None and not returncode [%s]" % p.describe(3),
+                  construct="yield-without-success:%s" % ("running" if not terminated else "failed"), path=p)
+    ctx.instances_floor("C19-h", n, 1, "yielding paths of pop_returned_processes")
+
+
 def check(ctx):
+    check_only_successful_yield(ctx)
     check_absent_flag(ctx)
     check_template_freshness(ctx)
     check_write(ctx)
@@ -643,6 +692,8 @@ def check(ctx):
 
 
 VARIANTS = [
+    M("latex-yield-failed", "lena/output/latex_to_pdf.py", "                    if returncode:\n                        # an error occurred\n                        del processes[filename]\n                        continue\n                    else:",
+      "                    if returncode and verbose:\n                        # an error occurred\n                        del processes[filename]\n                        continue\n                    else:", ["C19-h"]),
     M("make-filename-name-present-by-truth", "lena/output/make_filename.py", "                if \"output\" in context and key in context[\"output\"]:\n                    if not self._overwrite:\n                        continue", "                if not self._overwrite and lena.context.get_recursively(\n                        context, \"output.\" + key, None):\n                    continue", ["C19-e"]),
     M("latex-missing-flag-unchanged", "lena/output/latex_to_pdf.py", "            try:\n                changed = outputc[\"changed\"]\n            except KeyError:\n                # if context.output.changed is missing, we compare times\n                # for tex and pdf files.\n                try:\n                    pdf_time = os.path.getmtime(data)\n                except os.error:\n                    # probably changed won't be used, but anyway\n                    changed = True\n                else:\n                    tex_time = os.path.getmtime(texfile_name)\n                    changed = tex_time > pdf_time", "            changed = outputc.get(\"changed\", False)", ["C19-g"]),
     M("latex-missing-flag-handler-false", "lena/output/latex_to_pdf.py", "                    tex_time = os.path.getmtime(texfile_name)\n                    changed = tex_time > pdf_time", "                    changed = False", ["C19-g"]),
